@@ -313,7 +313,7 @@ def run_cases(exe, cases, tmpdir, tag, nshards=None, timeout=600, env=None, per_
     bounds = [(n * i // nshards, n * (i + 1) // nshards) for i in range(nshards)]
     results = [None] * n
 
-    def start(lo, hi, k):
+    def start(lo, hi, k, limit=None, attempt=0):
         fn = os.path.join(tmpdir, '%s.%d.cases' % (tag, k))
         with open(fn, 'w') as f:
             for c in cases[lo:hi]:
@@ -321,7 +321,7 @@ def run_cases(exe, cases, tmpdir, tag, nshards=None, timeout=600, env=None, per_
         ofn = fn + '.out'
         efn = fn + '.err'
         p = subprocess.Popen([exe, fn], stdout=open(ofn, 'w'), stderr=open(efn, 'w'), env=env)
-        return dict(p=p, lo=lo, hi=hi, k=k, ofn=ofn, efn=efn, t0=time.time())
+        return dict(p=p, lo=lo, hi=hi, k=k, ofn=ofn, efn=efn, t0=time.time(), limit=limit or timeout, attempt=attempt)
 
     pending = [start(lo, hi, k) for k, (lo, hi) in enumerate(bounds) if hi > lo]
     serial = len(bounds)
@@ -329,7 +329,7 @@ def run_cases(exe, cases, tmpdir, tag, nshards=None, timeout=600, env=None, per_
         nxt = []
         for j in pending:
             try:
-                j['p'].wait(timeout=max(1, timeout - (time.time() - j['t0'])))
+                j['p'].wait(timeout=max(1, j['limit'] - (time.time() - j['t0'])))
                 rc = j['p'].returncode
             except subprocess.TimeoutExpired:
                 j['p'].kill(); j['p'].wait(); rc = 124
@@ -339,6 +339,12 @@ def run_cases(exe, cases, tmpdir, tag, nshards=None, timeout=600, env=None, per_
             want = j['hi'] - j['lo']
             for i, l in enumerate(complete[:want]):
                 results[j['lo'] + i] = l
+            if got < want and rc == 124 and (got > 0 or j['attempt'] < 2):
+                # the SHARD ran out of wall time (slow / loaded machine), which says nothing about the case in
+                # flight: resume at that case with a longer limit; only a case that makes no progress at all
+                # in three successively longer attempts is reported as CRASH(timeout)
+                nxt.append(start(j['lo'] + got, j['hi'], serial, limit=j['limit'] * 3, attempt=(0 if got > 0 else j['attempt'] + 1))); serial += 1
+                continue
             if got < want:
                 err = open(j['efn'], errors='replace').read().strip().splitlines()
                 msg = ''
